@@ -16,6 +16,9 @@ CLAIMED = {
  "C04": ("§7 C04", "Every output the real Writers produce for the C01 alphabet is judged only by independent decoders (strict binary validator / text grammar parser + symbol context machine), and every integer codec is enumerated over 0..2^16 and all 2^k±2 with length-function/bytes agreement.",
          "Trusts refbin, reftext and refsym; ion-go's Reader is never consulted.",
          "exhaustive enumeration of writer inputs and codec arguments on the implementation, outputs validated by an independent reference decoder"),
+ "C06": ("§7 C06", "Exhaustive enumeration of hostile inputs (all short byte strings in both formats, every slot of a symbol table x every odd value, every type code x extreme declared lengths/exponents/IDs, every byte position of seed documents x substitutions, deep nesting) x six fixed drivers covering Reader navigation with every accessor, Decoder and Unmarshal into 18 target types, run in isolated worker processes under an address-space limit: no panic, no worker death, a deterministic call budget (hang) and a heap-allocation budget proportional to the input.",
+         "Allocation is measured with runtime/metrics; a worker death is attributed to the case announced before it started; inputs outside the enumerated families are not covered.",
+         "exhaustive enumeration of short inputs and single faults x a fixed driver set on the implementation, with crash/hang/allocation monitors"),
  "C07": ("§7 C07", "A hand catalogue of spec-invalid inputs in several contexts plus EVERY single truncation, deletion, duplication, insertion (24 characters) and substitution (11 byte values) at every position of every seed document in text and binary: whenever the independent reference rejects the edited input, a full traversal by the real Reader must end in an error that stays (five more Next calls, identical Err); edits that stay valid are compared value-by-value instead.",
          "The references decide what is malformed (constructs the specification leaves open are never judged); pairs of edits and other seed documents are not covered.",
          "exhaustive single-fault enumeration over every position of every seed input, replayed on the implementation against an independent validator"),
